@@ -424,6 +424,23 @@ def r18_13(run, model):
     run.floor("constructor patterns with payload built by the derives", n, 2)
 
 
+def r18_14(run, model):
+    run.rule("R18.14", "a derive attribute is honoured or rejected, never silently ignored: the attribute node's text continues after the "
+                       "closing bracket when a comment follows (`#[derive(ToString)] // note`), so the function that reads the targets "
+                       "locates the bracket instead of requiring the text to end with it (or the lowering hands over the bracketed text only)")
+    f = model.fn("parse_derive_targets", DER)
+    t = S.norm_ws(run.facts.text(DER, f.body["sp"]))
+    needs_end = re.search(r"strip_suffix\('\]'\)|ends_with\('\]'\)", t) is not None
+    low = model.fn("lower_attributes", "crates/ast/src/lower.rs")
+    lt = S.norm_ws(run.facts.text("crates/ast/src/lower.rs", low.body["sp"]))
+    whole_text = re.search(r"text:syntax\.text\(\)\.to_string\(\)", lt) is not None
+    ok = not (needs_end and whole_text)
+    run.ob("R18.14", "parse_derive_targets|a comment after the attribute does not drop the derive", ok, site(DER, f.node["sp"]),
+           f"the targets are read only if the text ends with `]`: {needs_end}; the lowering hands over the node's whole text (trailing trivia included): {whole_text}",
+           witness="#[derive(ToString)] // note\nstruct P { a: int32 }: no impl is generated and no diagnostic is given; p.to_string() fails with "
+                   "`Method to_string not found`")
+
+
 def run(run, model):
     run.try_rule(r18_1, model)
     run.try_rule(r18_2, model)
@@ -437,6 +454,7 @@ def run(run, model):
     run.try_rule(r18_11, model)
     run.try_rule(r18_12, model)
     run.try_rule(r18_13, model)
+    run.try_rule(r18_14, model)
     from rules import c05
     run.rule("R18.9", "binders of generated code are distinct variables (shared with C05 R05.6: every binder id is fresh, never interned by syntax pointer)")
     run.try_rule(c05.r05_6, model)
